@@ -39,9 +39,10 @@ MinOf(S) == CHOOSE x \in S : \A y \in S : x <= y
 \* one suite per key-exchange / signature class the hello offers and the in-tree server implements (at TLS 1.2)
 ClassOf(s) == IF SuiteRec(s).ECDHE THEN (IF SuiteRec(s).ECSign THEN "ecdhe-ecdsa" ELSE "ecdhe-rsa") ELSE "rsa"
 \* (thorough: also one suite per class that exists before TLS 1.2, so that TLS 1.0 / 1.1 handshakes are walked too)
-SuiteChoices(o) ==
+\* (quick: the pre-1.2 suites only for custom specs, where a TLS 1.0 / 1.1 session meets the session controller's assertions)
+SuiteChoices(o, custom) ==
   LET C == {s \in o.suites \cap Impl12 : SuiteRec(s).AEAD}
-      Old == IF Tier = "quick" THEN {} ELSE {s \in o.suites \cap Impl12 : ~SuiteRec(s).TLS12 /\ ~SuiteRec(s).AEAD /\ SuiteRec(s).KeyLen = 16 /\ SuiteRec(s).MacLen = 20 /\ SuiteRec(s).IVLen = 16}
+      Old == IF Tier = "quick" /\ ~custom THEN {} ELSE {s \in o.suites \cap Impl12 : ~SuiteRec(s).TLS12 /\ ~SuiteRec(s).AEAD /\ SuiteRec(s).KeyLen = 16 /\ SuiteRec(s).MacLen = 20 /\ SuiteRec(s).IVLen = 16}
       cls == IF Tier = "quick" THEN {"ecdhe-ecdsa", "rsa"} ELSE {"ecdhe-ecdsa", "ecdhe-rsa", "rsa"} IN
   {MinOf({s \in C : ClassOf(s) = c}) : c \in {d \in cls : \E s \in C : ClassOf(s) = d}}
   \cup {MinOf({s \in Old : ClassOf(s) = c}) : c \in {d \in {"ecdhe-ecdsa", "rsa"} : \E s \in Old : ClassOf(s) = d}}
@@ -74,7 +75,7 @@ PlansOf(i) ==
        UNION {{[shape |-> "full", ccert |-> "", dev |-> <<1, 1>>, conns |-> <<Conn(i, FALSE, <<Srv(v, su, r, 0, TRUE)>>)>>],
                [shape |-> "resume", ccert |-> "", dev |-> <<2, 1>>,
                 conns |-> <<Conn(i, FALSE, <<Srv(v, su, r, 0, TRUE)>>), Conn(i, FALSE, <<Srv(v, su, r, 0, TRUE)>>), Conn(i, FALSE, <<Srv(v, su, r, 0, TRUE)>>)>>]}
-              : v \in {w \in {770, 769} : Tier = "thorough" /\ w \in o.versions /\ ~SuiteRec(su).TLS12}})
+              : v \in {w \in (IF Tier = "thorough" THEN {770, 769} ELSE {770}) : w \in o.versions /\ ~SuiteRec(su).TLS12}})
     \cup (IF ca # 0 \/ Lean(r) \/ ~SuiteRec(su).AEAD THEN {} ELSE
     \* tickets switched off
        (IF Tier = "thorough" THEN {[shape |-> "full", ccert |-> "", dev |-> <<1, 1>>, conns |-> <<Conn(i, FALSE, <<Srv(771, su, r, 0, FALSE)>>)>>]} ELSE {})
@@ -95,7 +96,7 @@ PlansOf(i) ==
              cc \in IF (ca = 0 \/ r) /\ ~Lean(r) /\ SuiteRec(su).AEAD THEN CCerts(ca) ELSE {},
              c2 \in {s0.cert} \cup (IF ca = 0 THEN {OtherCert(s0.cert)} ELSE {}),
              su2 \in {su} \cup (IF ca = 0 THEN {OtherSuite(o, su)} \ {0} ELSE {})}
-    : ca \in CAs, r \in Rich} : su \in SuiteChoices(o)}
+    : ca \in CAs, r \in Rich} : su \in SuiteChoices(o, OfferTab[i].variant # <<>> \/ OfferTab[i].reneg # "")}
 Plans == UNION {PlansOf(i) : i \in Rows}
 
 \* ------------------------------------------------------------ the server's natural messages (what a compliant in-tree server sends)
